@@ -143,7 +143,10 @@ def explore(harness, argtypes, timeout=60.0, per_path_timeout=20.0, max_witnesse
             break
         if before_path is not None:
             before_path()
-        space = StateSpace(execution_deadline=now + per_path_timeout, model_check_timeout=per_path_timeout / 2, search_root=root)
+        # floors: z3's per-query timeout is wall-clock, so on a loaded machine a 10 s query limit turns ordinary queries into UNKNOWN
+        # (INCONCLUSIVE lemmas); the lemma's CPU budget (`timeout`) still bounds the whole exploration
+        pp = max(per_path_timeout, 120.0)
+        space = StateSpace(execution_deadline=now + pp, model_check_timeout=pp / 2, search_root=root)
         res.paths += 1
         with condition_parser([AnalysisKind.asserts]), Patched(), COMPOSITE_TRACER, NoTracing(), StateSpaceContext(space):
             COMPOSITE_TRACER.push_module(cov)
